@@ -292,6 +292,56 @@ int main() {
   }
   flush();
 
+  // (1b) ONE Typification object assigned in place with a sequence of different types, values packed and unpacked one
+  // after the other in the same process (seeded change C16-4: a memo keyed by the address of a type object is stale
+  // once the object at that address has another shape)
+  for (int i = 0; i < (deep ? 400 : 80); ++i) {
+    std::vector<std::pair<Ty, StructuredData>> seq;
+    const int n = rng.range(6, 14);
+    for (int k = 0; k < n; ++k) {
+      // element types with tuples and nested collections, values with (nested) empty sets followed by more data
+      Ty ty = rng.chance(1, 2) ? coll(tup({ coll(genTy(rng, rng.range(0, 2), 3)), base("C1") })) : genTy(rng, rng.range(1, 3), 3);
+      seq.emplace_back(ty, genVal(rng, ty, rng.range(1, 4)));
+    }
+    // the same with a COMPONENT of one tuple type assigned in place (its address is stable, its shape changes)
+    {
+      std::vector<std::pair<Ty, StructuredData>> comp;
+      const int m = rng.range(4, 10);
+      for (int k = 0; k < m; ++k) {
+        std::vector<Ty> parts;
+        const int w = rng.range(1, 4);
+        for (int q = 0; q < w; ++q) parts.push_back(rng.chance(1, 4) ? coll(base("X1")) : base("X1"));
+        const Ty elem = parts.size() == 1 ? coll(parts[0]) : tup(parts);     // a structured element type
+        const Ty setTy = coll(elem);
+        const Ty whole = tup({ setTy, base("C1") });
+        comp.emplace_back(setTy, rng.chance(2, 3) ? Factory::Tuple({ Factory::EmptySet(), Factory::Val(rng.range(1, 9)) }) : genVal(rng, whole, 3));
+      }
+      cases.push_back({ "c16 rtseq c" + std::to_string(i), [comp]() {
+        rslang::Typification slot = toTypif(tup({ comp.front().first, base("C1") }));
+        int idx = 0;
+        for (const auto& [setTy, val] : comp) {
+          slot.T().Component(rslang::Typification::PR_START) = toTypif(setTy);
+          const auto compact = SDCompact::FromSData(val, slot);
+          const auto back = compact.Unpack(slot);
+          if (!back.has_value() || !(back.value() == val)) return "0:" + std::to_string(idx) + ":" + slot.ToString() + ":" + valStr(val);
+          ++idx;
+        }
+        return std::string("1"); } });
+    }
+    cases.push_back({ "c16 rtseq " + std::to_string(i), [seq]() {
+      rslang::Typification slot = toTypif(seq.front().first);
+      int idx = 0;
+      for (const auto& [ty, val] : seq) {
+        slot = toTypif(ty);                       // assigned in place: same object, possibly re-used heap blocks inside
+        const auto compact = SDCompact::FromSData(val, slot);
+        const auto back = compact.Unpack(slot);
+        if (!back.has_value() || !(back.value() == val)) return "0:" + std::to_string(idx) + ":" + tyStr(ty) + ":" + valStr(val);
+        ++idx;
+      }
+      return std::string("1"); } });
+  }
+  flush();
+
   // (2) arbitrary ragged tables against arbitrary types; packed tables against a different type
   const int nTabs = deep ? 40000 : 12000;
   for (int i = 0; i < nTabs; ++i) {
